@@ -1869,3 +1869,65 @@ func (c *Ctx) ruleRecoveryID() {
 		c.ob("R-RECID", name+":normalises-recovery-byte", f.Pos(), n == 1, fmt.Sprintf("%d writes to the signature buffer (exactly one expected: the recovery byte)", n))
 	}
 }
+
+// R-PAGECURSOR: the paging cursor of state_getKeysPaged is the client's after-key and nothing else.
+func (c *Ctx) rulePageCursor() {
+	f := c.fn("dot/rpc/modules", "(*StateModule).GetKeysPaged")
+	if f == nil {
+		return
+	}
+	c.doc("R-PAGECURSOR", "StateModule.GetKeysPaged: a listed key is skipped only by the strict comparison `key > cursor`, the cursor derives from the request's AfterKey alone (never from the prefix), and the function does not rewrite AfterKey: with no after-key every key with the prefix — including the key EQUAL to the prefix — is on the first page")
+	stores := 0
+	eachInstr(f, func(_ *ssa.BasicBlock, _ int, in ssa.Instruction) {
+		if st, ok := in.(*ssa.Store); ok {
+			if fa, ok := st.Addr.(*ssa.FieldAddr); ok && fieldVar(fa) != nil && fieldVar(fa).Name() == "AfterKey" {
+				stores++
+			}
+		}
+	})
+	c.ob("R-PAGECURSOR", "GetKeysPaged:after-key-not-rewritten", f.Pos(), stores == 0, fmt.Sprintf("GetKeysPaged assigns the request's AfterKey (%d stores): defaulting it to the prefix makes the strict cursor comparison drop the key equal to the prefix", stores))
+	n := 0
+	eachInstr(f, func(_ *ssa.BasicBlock, _ int, in ssa.Instruction) {
+		call, ok := in.(*ssa.Call)
+		if !ok {
+			return
+		}
+		nm := calleeName(&call.Call)
+		if nm != "strings.Compare" && nm != "bytes.Compare" {
+			return
+		}
+		n++
+		fromAfter, fromPrefix := false, false
+		for _, a := range call.Call.Args {
+			aAfter, aPrefix := false, false
+			for v := range backwardSlice(a, nil) {
+				if _, fv, ok := fieldLoad(v); ok && fv != nil {
+					switch fv.Name() {
+					case "AfterKey":
+						aAfter = true
+					case "Prefix":
+						aPrefix = true
+					}
+				}
+			}
+			if aAfter { // this operand is the cursor (the other one is the listed key, which of course depends on the prefix)
+				fromAfter = true
+				fromPrefix = fromPrefix || aPrefix
+			}
+		}
+		strict := false
+		for _, r := range *call.Referrers() {
+			if bo, ok := r.(*ssa.BinOp); ok {
+				k, isC := constInt(bo.Y)
+				if isC && ((bo.Op == token.EQL && k == 1) || (bo.Op == token.GTR && k == 0)) {
+					strict = true
+				}
+			}
+		}
+		c.ob("R-PAGECURSOR", fmt.Sprintf("GetKeysPaged:cursor-comparison#%d", n), call.Pos(), fromAfter && !fromPrefix && strict,
+			fmt.Sprintf("the cursor comparison must be `key > AfterKey` (derived from AfterKey=%v, from Prefix=%v, strict=%v)", fromAfter, fromPrefix, strict))
+	})
+	if n == 0 {
+		c.ob("R-PAGECURSOR", "GetKeysPaged:cursor-comparison", f.Pos(), false, "no Compare call found (anchor changed)")
+	}
+}
